@@ -130,4 +130,94 @@ theorem jobs_ids_nodup (res : Bool) (f : Forest) (n : Nat) : ((jobs res f n).map
       have h2 := (jobs_range res rest _ q hq).1
       omega
 
+/-! ### all activities (job and monitor): opened / closed ids -/
+
+theorem opened_append (a b : List Msg) : opened (a ++ b) = opened a ++ opened b := by
+  simp [opened, List.filterMap_append]
+
+theorem closed_append (a b : List Msg) : closed (a ++ b) = closed a ++ closed b := by
+  simp [closed, List.filterMap_append]
+
+theorem opened_block (res : Bool) (i : Info) (n : Nat) (inner : List Msg) (n3 : Nat) :
+    opened (block res i n inner n3) = n :: ((if res then [n + 2] else []) ++ opened inner) := by
+  cases res <;> cases hs : i.sync <;> simp [block, opened, Msg.opens, hs, List.filterMap_append, List.filterMap_cons]
+
+theorem closed_block (res : Bool) (i : Info) (n : Nat) (inner : List Msg) (n3 : Nat) :
+    closed (block res i n inner n3) = closed inner ++ (if res then [n + 2] else []) ++ [n] := by
+  cases res <;> cases hs : i.sync <;> simp [block, closed, Msg.closes, hs, List.filterMap_append, List.filterMap_cons]
+
+/-- every activity id opened by a forest comes from the uuids that forest draws -/
+theorem opened_range (res : Bool) (f : Forest) (n : Nat) (rg : Reg) :
+    ∀ a ∈ opened (emit false res f n rg).1, n ≤ a ∧ a < n + used res f := by
+  induction f generalizing n rg with
+  | nil => intro a ha; simp [emit, opened] at ha
+  | node i kids rest ihk ihr =>
+    intro a ha
+    obtain ⟨rgk, h⟩ := emit_own_node res i kids rest n rg
+    rw [h, opened_append, opened_block] at ha
+    rw [used_node]
+    have hpre : pre res = 2 + (if res then 1 else 0) := rfl
+    simp only [List.mem_cons, List.mem_append] at ha
+    rcases ha with (rfl | ha | ha) | ha
+    · omega
+    · cases res <;> simp at ha
+      subst ha; simp [pre]; omega
+    · have := ihk _ rgk a ha; omega
+    · have := ihr _ rg a ha; omega
+
+theorem opened_nodup (res : Bool) (f : Forest) (n : Nat) (rg : Reg) :
+    (opened (emit false res f n rg).1).Nodup := by
+  induction f generalizing n rg with
+  | nil => simp [emit, opened]
+  | node i kids rest ihk ihr =>
+    obtain ⟨rgk, h⟩ := emit_own_node res i kids rest n rg
+    rw [h, opened_append, opened_block]
+    have hk := opened_range res kids (n + pre res) rgk
+    have hr := opened_range res rest (n + pre res + used res kids + post res) rg
+    have hpre : pre res = 2 + (if res then 1 else 0) := rfl
+    -- n :: (mon ++ kids) ++ rest
+    rw [List.cons_append, List.nodup_cons]
+    refine ⟨?_, ?_⟩
+    · simp only [List.mem_append, not_or]
+      refine ⟨⟨?_, ?_⟩, ?_⟩
+      · cases res <;> simp
+      · intro ha; have := (hk n ha).1; omega
+      · intro ha; have := (hr n ha).1; omega
+    · rw [List.nodup_append]
+      refine ⟨?_, ihr _ _, ?_⟩
+      · rw [List.nodup_append]
+        refine ⟨by cases res <;> simp, ihk _ _, ?_⟩
+        intro a ha b hb hab
+        subst hab
+        cases res with
+        | false => simp at ha
+        | true =>
+          simp at ha
+          subst ha
+          have := (hk _ hb).1
+          simp [pre] at this
+      · intro a ha b hb hab
+        subst hab
+        have h2 := (hr a hb).1
+        rcases List.mem_append.mp ha with ha | ha
+        · cases res with
+          | false => simp at ha
+          | true => simp at ha; subst ha; simp [pre] at h2; omega
+        · have := (hk a ha).2; omega
+
+theorem closed_perm_opened (res : Bool) (f : Forest) (n : Nat) (rg : Reg) :
+    (closed (emit false res f n rg).1).Perm (opened (emit false res f n rg).1) := by
+  induction f generalizing n rg with
+  | nil => simp [emit, opened, closed]
+  | node i kids rest ihk ihr =>
+    obtain ⟨rgk, h⟩ := emit_own_node res i kids rest n rg
+    rw [h, opened_append, closed_append, opened_block, closed_block]
+    refine List.Perm.append ?_ (ihr _ _)
+    -- closed kids ++ mon ++ [n]  ~  n :: (mon ++ opened kids)
+    have h1 : (closed (emit false res kids (n + pre res) rgk).1 ++ (if res then [n + 2] else []) ++ [n]).Perm
+        (n :: (closed (emit false res kids (n + pre res) rgk).1 ++ (if res then [n + 2] else []))) := by
+      simpa using (List.perm_append_comm (l₁ := closed (emit false res kids (n + pre res) rgk).1 ++ (if res then [n + 2] else [])) (l₂ := [n]))
+    refine h1.trans (List.Perm.cons _ ?_)
+    exact List.perm_append_comm.trans (List.Perm.append_left _ (ihk _ _))
+
 end PydraModel.JobProto.Audit
